@@ -600,9 +600,11 @@ class Target(DataExchangeProtocol):
                 log.debug("ignore non-matching device identifier")
                 res = None
             elif type(req) == DSL_REQ:
-                return self.send_res_recv_req(DSL_RES(self.did), 0)
+                self.send_res_recv_req(DSL_RES(self.did), 0)
+                return None  # deselected, whatever came next is not for us
             elif type(req) == RLS_REQ:
-                return self.send_res_recv_req(RLS_RES(self.did), 0)
+                self.send_res_recv_req(RLS_RES(self.did), 0)
+                return None  # released, whatever came next is not for us
             elif type(req) == DEP_REQ:
                 if req.pfb.fmt == DEP_REQ.Attention:
                     res = ATN(self.did, self.nad)
